@@ -44,6 +44,24 @@ def r81(db, ctx):
     if m(('call~', 'ScoringMatrix::matrix', (('p', 1),)), bx['$src']) is None and m(('fld', ('p', 1), 'data'), bx['$src']) is None:
         ctx.fail('R8.1', f, 'cell source', f'cells are not read from self: {X.show(bx["$src"])}')
         return None
+    # coverage: i over all rows of the new matrix, j over all of its columns (the wildcard column included: its cell must be an
+    # over-estimate too whenever the wildcard score is finite)
+    i_e, j_e = bt['$i'], bt['$j']
+    def full_range(e, what):
+        if not (e[0] == 'elem' and e[1][0] == 'agg' and norm(e[1][2][0]) == ('k', 0)):
+            return False
+        hi = X.canon(norm(e[1][2][1]))
+        if what == 'rows':
+            return 'DenseMatrix::rows(' in hi or 'ScoringMatrix::len(' in hi
+        return 'DenseMatrix::columns(' in hi or (hi.endswith('USIZE') and 'Sub' not in hi and '-1' not in hi)
+    if not full_range(i_e, 'rows'):
+        ctx.fail('R8.1', f, 'row coverage', f'cells are filled for rows {X.show(i_e[1], 80) if i_e[0] == "elem" else X.show(i_e, 80)}, expected 0..rows', span=cell['span'])
+        return None
+    if not full_range(j_e, 'cols'):
+        ctx.fail('R8.1', f, 'column coverage',
+                 f'cells are filled for columns {X.show(j_e[1], 80) if j_e[0] == "elem" else X.show(j_e, 80)} only: the remaining column(s) keep 0, which under-estimates a finite score of that symbol (e.g. a neutral wildcard)',
+                 span=cell['span'])
+        return None
     # aggregate
     agg = None
     for blk in f.blocks:
